@@ -70,10 +70,18 @@ void *pool_build(uint64_t seed) {
     { ST::string t(std::move(p->strs[11])); ST::string u(std::move(p->strs[13])); p->strs[12].clear(); ST::string v; v = std::move(p->strs[14]); }
     { ST::char_buffer t(std::move(p->b8[11])); ST::utf16_buffer u(std::move(p->b16[11])); ST::utf32_buffer v(std::move(p->b32[13])); ST::wchar_buffer w(std::move(p->bw[13]));
       p->b8[12].clear(); p->b16[12] = ST::null; ST::char_buffer a; a = std::move(p->b8[14]); ST::wchar_buffer b; b = std::move(p->bw[14]); }
+    // the prototype streams: configured, then used (a sink that has been written to may carry state a fresh one does not)
+    p->proto8 << std::left; p->proto8.precision(4); ST::writef(p->proto8, "{}|{>12}|{x}", p->strs[0], p->strs[1], 48879); p->proto8 << p->strs[2];
+    p->protow << std::left; p->protow.precision(4); ST::writef(p->protow, "{}|{>12}|{x}", p->strs[0], p->strs[1], 48879); p->protow << p->strs[2];
     return p;
 }
 void pool_destroy(void *pool) { delete static_cast<Pool *>(pool); }
-void *priv_new() { return new Priv(); }
+void *priv_new(const void *pool) {
+    const Pool &P = *static_cast<const Pool *>(pool);
+    Priv *v = new Priv();
+    v->os8.copyfmt(P.proto8); v->osw.copyfmt(P.protow);
+    return v;
+}
 void priv_delete(void *p) { delete static_cast<Priv *>(p); }
 
 uint64_t step_budget_for(const BOp &) { return 12000000ull; }
